@@ -112,7 +112,7 @@ def guard_key(st):
 class Out:
     """Outcome of executing a statement list."""
 
-    __slots__ = ("normal", "ret", "retval", "raises", "brk", "cont", "parts", "forks", "rparts")
+    __slots__ = ("normal", "ret", "retval", "raises", "brk", "cont", "parts", "forks", "rparts", "ends")
 
     def __init__(self, normal=None):
         self.normal = normal
@@ -121,6 +121,7 @@ class Out:
         self.raises = {}
         self.brk = None
         self.cont = None
+        self.ends = None    # the un-joined states at the end of a block (exec_block), for correlated continuation
         self.parts = {}     # "none" / "some" -> (state, values): returns partitioned by None-ness
         self.forks = None   # list of states when the statement forks (see Interp.st_Assign)
         self.rparts = {}    # label -> {guard-context key -> state}: raises kept apart per guard context
